@@ -468,6 +468,54 @@ def _ctor_priors(case, ctx, g):
             ctx.close("ctor_prior_setting_closure_writes_its_parameter", back, new.expand_as(back), (1e-9, 1e-7), cls="ctor_prior_set", target=f"{cname}.{name}")
             for a_, v_ in before.items():
                 ctx.expect("ctor_prior_setting_closure_leaves_siblings", bool(torch.equal(getattr(mod, a_).detach(), v_)), f"{cname}: setting closure of '{name}' changed {a_}", target=f"{cname}.{name}")
+    # the same on a DEEP COPY of the module: the copy's closures read / write the copy, never the original
+    import copy
+
+    orig_state = {k_: v_.detach().clone() for k_, v_ in module.state_dict().items()}
+    clone = copy.deepcopy(module)
+    util.randomize(clone, util.gen(case["seed"] + 3), 0.6)
+    clone_names = {id(m_): n_ for n_, m_ in clone.named_modules()}
+    for name, mod, prior, closure, setter in clone.named_priors():
+        attr = name.rsplit(".", 1)[-1][: -len("_prior")]
+        attr = {"mean": "constant"}.get(attr, attr) if isinstance(mod, Mn.ConstantMean) else attr
+        if not name.endswith("_prior") or not isinstance(getattr(type(mod), attr, None), property):
+            continue
+        with torch.no_grad():
+            seen, want = closure(mod), getattr(mod, attr)
+        ctx.expect("ctor_prior_closure_reads_its_parameter", seen.shape == want.shape and bool(torch.equal(seen, want)), f"{cname} (deep copy): prior '{name}' is evaluated at a value that is not the copy's {attr}", target=f"{cname}.{name}", copy=True)
+        if setter is not None:
+            cons = mod._constraints.get(f"raw_{attr}_constraint")
+            if cons is not None and bool(torch.isfinite(cons.upper_bound).all()) and bool(torch.isfinite(cons.lower_bound).all()):
+                mid = 0.5 * (cons.upper_bound + cons.lower_bound).to(want)
+                new = (want.detach() + 0.35 * (mid - want.detach())).clone()
+            else:
+                new = (want.detach() * 1.13 + 0.017).clone()
+            try:
+                setter(mod, new)
+            except Exception:
+                continue
+            back = getattr(mod, attr).detach()
+            ctx.close("ctor_prior_setting_closure_writes_its_parameter", back, new.expand_as(back), (1e-9, 1e-7), cls="ctor_prior_set:copy", target=f"{cname}.{name}", copy=True)
+    now = module.state_dict()
+    changed = [k_ for k_, v_ in orig_state.items() if not torch.equal(now[k_], v_)]
+    ctx.expect("copy_closures_leave_original_alone", not changed, f"{cname}: setting closures of a deep copy changed the original's {changed[:3]}", target=cname)
+    # ... and for a prior registered BY PARAMETER NAME from the harness
+    pairs = _constrained_pairs(module)
+    if pairs:
+        mod0, pub0, _, _ = pairs[0]
+        try:
+            mod0.register_prior("vf_named_prior", P.GammaPrior(2.0, 2.0), pub0)
+            c2 = copy.deepcopy(module)
+            o_before = getattr(mod0, pub0).detach().clone()
+            for name, mod, prior, closure, setter in c2.named_priors():
+                if name.endswith("vf_named_prior"):
+                    v_ = getattr(mod, pub0).detach() * 1.21 + 0.013
+                    setter(mod, v_)
+                    ctx.close("ctor_prior_setting_closure_writes_its_parameter", getattr(mod, pub0).detach(), v_, (1e-9, 1e-7), cls="named_prior_set:copy", target=f"{cname}.{pub0}", copy=True)
+                    ctx.expect("ctor_prior_closure_reads_its_parameter", bool(torch.equal(closure(mod).detach(), getattr(mod, pub0).detach())), f"{cname} (deep copy): name-registered prior reads another module's {pub0}", target=f"{cname}.{pub0}", copy=True)
+            ctx.expect("copy_closures_leave_original_alone", bool(torch.equal(getattr(mod0, pub0).detach(), o_before)), f"{cname}: the name-registered prior's setting closure of a deep copy wrote the original's {pub0}", target=cname)
+        except (RuntimeError, AttributeError):
+            pass
     ctx.cell({"cls": cname, "priors": names}, nontrivial=found >= 1)
 
 
